@@ -1,4 +1,5 @@
 import SamVerif.Model.Lexer
+import SamVerif.Model.EntryPoint
 import Driver.Util
 /-! Protocol `lex` (C05, C14): runs the scanner model `SamVerif.Lexer.tokenize` on hex-encoded text.
 Answer format = `harness/src/bin/c05.rs`:
@@ -50,6 +51,20 @@ def showResult (r : Result) : String :=
 def step (st : Unit) (line : String) : Unit × String :=
   match words line with
   | ["lex", h] => (st, showResult (tokenize (bytesOfHex h)))
+  -- `entry <classes>`: classes separated by `/`, each `<isMainType>:<nClassTparams>:<members>`, members separated by
+  -- `,`, each `<isMainName><isMethod><nParams><nTparams>` (4 digits) -> `1` iff the module has an entry point
+  | ["entry", spec] =>
+    let digit (c : Char) : Nat := c.toNat - 48
+    let classes := (spec.splitOn "/").filterMap fun cs =>
+      match cs.splitOn ":" with
+      | [mt, ct, ms] =>
+        let members := (ms.splitOn ",").filterMap fun m =>
+          match m.toList with
+          | [a, b, c, d] => some (SamVerif.EntryPoint.Member.mk (a == '1') (b == '1') (digit c) (List.range (digit d)))
+          | _ => none
+        some (SamVerif.EntryPoint.Class.mk (mt == "1") (List.range ct.toNat!) members)
+      | _ => none
+    (st, if SamVerif.EntryPoint.moduleHasEntry classes then "1" else "0")
   | _ => (st, "bad-op")
 
 def run : IO Unit := runLoop () step
